@@ -356,6 +356,11 @@ def fromValueM (ft : List Char → Option (List Char)) :
     | .ok y => fromValueM ft es (listInsert acc k y)
 end
 
+/-- `impl Deserialize for Object` from a `Value`: `deserialize_map`, then `insert` entry by entry -/
+def fromValueObject (ft : List Char → Option (List Char)) : JValue → Except DeErr JValue
+  | .object es => fromValueM ft es []
+  | _ => .error .invalidType
+
 /-- decidable comparison of two deserialization results -/
 def deResEq : Except DeErr JValue → Except DeErr JValue → Bool
   | .ok a, .ok b => a.beq b
